@@ -521,6 +521,53 @@ theorem pairs_nl (defs : List (TableD F)) (ss : List Slot) (h : ss.all slotNlOK 
     | edef lay => simpa [sdefPairs] using ih defs h.2
     | filler text crlf => simpa [sdefPairs] using ih defs h.2
 
+theorem pairs_line (enums : List EnumDecl) (defs : List (TableD F)) (ss : List Slot)
+    (h : sdefsLineOK enums defs ss = true) :
+    ∀ p ∈ sdefPairs defs ss, declLineOK enums p.1.cols p.2.cols = true := by
+  induction ss generalizing defs with
+  | nil => intro p hp; simp [sdefPairs] at hp
+  | cons s ss ih =>
+    cases s with
+    | sdef lay =>
+      cases defs with
+      | nil => intro p hp; simp [sdefPairs] at hp
+      | cons t rest =>
+        simp only [sdefsLineOK, Bool.and_eq_true] at h
+        intro p hp
+        simp only [sdefPairs, List.mem_cons] at hp
+        rcases hp with rfl | hp
+        · exact h.1
+        · exact ih rest h.2 p hp
+    | pair lay => cases defs <;> simpa [sdefPairs] using ih _ (by simpa [sdefsLineOK] using h)
+    | row t lay => cases defs <;> simpa [sdefPairs] using ih _ (by simpa [sdefsLineOK] using h)
+    | edef lay => cases defs <;> simpa [sdefPairs] using ih _ (by simpa [sdefsLineOK] using h)
+    | filler text crlf => cases defs <;> simpa [sdefPairs] using ih _ (by simpa [sdefsLineOK] using h)
+
+/-- the assumption of the first extension round implies the line condition -/
+theorem sdefsLineOK_of_nl (enums : List EnumDecl) (defs : List (TableD F)) (ss : List Slot)
+    (h : ss.all slotNlOK = true) : sdefsLineOK enums defs ss = true := by
+  induction ss generalizing defs with
+  | nil => cases defs <;> rfl
+  | cons s ss ih =>
+    simp only [List.all_cons, Bool.and_eq_true] at h
+    cases s with
+    | sdef lay =>
+      cases defs with
+      | nil => simpa [sdefsLineOK] using ih [] h.2
+      | cons t rest =>
+        simp only [sdefsLineOK, Bool.and_eq_true]
+        exact ⟨declLineOK_of_nl enums t.cols lay.cols h.1, ih rest h.2⟩
+    | pair lay => cases defs <;> simpa [sdefsLineOK] using ih _ h.2
+    | row t lay => cases defs <;> simpa [sdefsLineOK] using ih _ h.2
+    | edef lay => cases defs <;> simpa [sdefsLineOK] using ih _ h.2
+    | filler text crlf => cases defs <;> simpa [sdefsLineOK] using ih _ h.2
+
+theorem layoutOKW_of_OK2 (io : FloatIO F) (d : Doc F) (lay : Layout) (h : layoutOK2 io d lay = true) :
+    layoutOKW io d lay = true := by
+  simp only [layoutOK2, Bool.and_eq_true] at h
+  simp only [layoutOKW, Bool.and_eq_true]
+  exact ⟨h.1, sdefsLineOK_of_nl d.enums d.tables lay.slots h.2⟩
+
 /-! ### what the line loop collects -/
 
 def mkRows : List (TableD F) → List (List (List (Cell F))) → List (Str × List (List (Cell F)))
